@@ -250,75 +250,99 @@ func init() {
 			}
 			return true
 		}
+		// Both functions are compared as statement lists AFTER partial evaluation of UTransport.doDial under the
+		// assumption "no spec" (symwalk.go residual): `if <spec> == nil {A} else {B}` becomes A, `if <spec> != nil &&
+		// … {A} else {B}` becomes B, a call of a same-package helper that, without a spec, is just `return <expr>`
+		// becomes <expr>, `var x T` + `x = …` and `x := …` coincide. So it does not matter whether the spec-dependent
+		// steps are written inline or extracted into helpers, how helpers are called, or how the if/else is oriented.
+		uRecv := recvName(uDo)
+		if uRecv == "" {
+			return fmt.Errorf("UTransport.doDial: unnamed receiver")
+		}
+		isSpecExpr := func(x ast.Expr) bool { return render(fset, x) == uRecv+".QUICSpec" }
+		specAtom := func(specIsNil bool) func(ast.Expr) (bool, bool) {
+			return func(cnd ast.Expr) (bool, bool) {
+				for {
+					pe, ok := cnd.(*ast.ParenExpr)
+					if !ok {
+						break
+					}
+					cnd = pe.X
+				}
+				b, ok := cnd.(*ast.BinaryExpr)
+				if !ok || (b.Op != token.EQL && b.Op != token.NEQ) {
+					return false, false
+				}
+				if !((isSpecExpr(b.X) && isNilIdent(b.Y)) || (isSpecExpr(b.Y) && isNilIdent(b.X))) {
+					return false, false
+				}
+				return (b.Op == token.EQL) == specIsNil, true
+			}
+		}
+		canon := func(n ast.Node) string {
+			r := normRecv(render(fset, n))
+			r = strings.ReplaceAll(r, ", )", ")")
+			r = strings.ReplaceAll(r, "( ", "(")
+			return r
+		}
+		resOf := func(fd *ast.FuncDecl, specIsNil bool) []ast.Stmt {
+			sw := &symWalker{helper: fl.helper, atom: specAtom(specIsNil), maxDepth: 3}
+			out, _ := sw.residual(fd.Body.List, symEnv{}, isSpecExpr, 0)
+			return out
+		}
+		canonList := func(sts []ast.Stmt) []string {
+			var out []string
+			for _, st := range sts {
+				out = append(out, canon(st))
+			}
+			return out
+		}
+		// the statements (of a residual) that call `name`, each with that call
+		type site struct {
+			st   ast.Stmt
+			call *ast.CallExpr
+		}
+		sitesOf := func(sts []ast.Stmt, name string) []site {
+			var out []site
+			for _, st := range sts {
+				for _, cl := range findCalls(st, name) {
+					out = append(out, site{st, cl})
+				}
+			}
+			return out
+		}
+		plain, _ := (&symWalker{}).residual(tDo.Body.List, symEnv{}, nil, 0)
+		uNil := resOf(uDo, true)
+		uSpec := resOf(uDo, false)
+		tArgs := argsOf(tCtor[0])
 		nilCtor, nilArgs, specCtor := false, false, false
-		var ctorIf, dcidIf ast.Stmt
-		dcidElseOK := false
-		tDcid := findCalls(tDo.Body, "generateConnectionIDForInitial")
-		for _, st := range uDo.Body.List {
-			is, ok := st.(*ast.IfStmt)
-			if !ok || is.Init != nil {
-				continue
+		if cs, us := sitesOf(uNil, "newClientConnection"), sitesOf(uNil, "newUClientConnection"); len(cs) == 1 && len(us) == 0 {
+			if as, ok := cs[0].st.(*ast.AssignStmt); ok && len(as.Rhs) == 1 && as.Rhs[0] == ast.Expr(cs[0].call) {
+				nilCtor = true
+				nilArgs = eqStrs(argsOf(cs[0].call), tArgs)
 			}
-			cond := render(fset, is.Cond)
-			switch {
-			case cond == "t.QUICSpec == nil":
-				ctorIf = st
-				if len(is.Body.List) == 1 {
-					if as, ok := is.Body.List[0].(*ast.AssignStmt); ok && len(as.Rhs) == 1 {
-						if call, ok := as.Rhs[0].(*ast.CallExpr); ok && callName(call) == "newClientConnection" {
-							nilCtor = true
-							nilArgs = eqStrs(argsOf(call), argsOf(tCtor[0]))
-						}
+		}
+		if cs, us := sitesOf(uSpec, "newClientConnection"), sitesOf(uSpec, "newUClientConnection"); len(cs) == 0 && len(us) == 1 {
+			if as, ok := us[0].st.(*ast.AssignStmt); ok && len(as.Rhs) == 1 && as.Rhs[0] == ast.Expr(us[0].call) {
+				a := argsOf(us[0].call)
+				specCtor = len(a) == len(tArgs)+1 && eqStrs(a[:len(a)-1], tArgs) && a[len(a)-1] == uRecv+".QUICSpec"
+			}
+		}
+		// destination connection ID: without a spec exactly Transport.doDial's statement, and nothing else draws one
+		dcidOK := false
+		tDcid := sitesOf(plain, "generateConnectionIDForInitial")
+		if uD := sitesOf(uNil, "generateConnectionIDForInitial"); len(tDcid) == 1 && len(uD) == 1 {
+			dcidOK = canon(uD[0].st) == canon(tDcid[0].st)
+			for _, st := range uNil {
+				ast.Inspect(st, func(n ast.Node) bool {
+					if cl, ok := n.(*ast.CallExpr); ok && cl != uD[0].call && strings.HasPrefix(callName(cl), "generateConnectionIDForInitial") {
+						dcidOK = false
 					}
-				}
-				if eb, ok := is.Else.(*ast.BlockStmt); ok && len(eb.List) == 1 {
-					if as, ok := eb.List[0].(*ast.AssignStmt); ok && len(as.Rhs) == 1 {
-						if call, ok := as.Rhs[0].(*ast.CallExpr); ok && callName(call) == "newUClientConnection" {
-							a := argsOf(call)
-							specCtor = len(a) == len(tCtor[0].Args)+1 && eqStrs(a[:len(a)-1], argsOf(tCtor[0])) && a[len(a)-1] == "t.QUICSpec"
-						}
-					}
-				}
-			case strings.HasPrefix(cond, "t.QUICSpec != nil &&"):
-				dcidIf = st
-				if eb, ok := is.Else.(*ast.BlockStmt); ok && len(eb.List) == 1 && len(tDcid) == 1 {
-					if as, ok := eb.List[0].(*ast.AssignStmt); ok && len(as.Rhs) == 1 {
-						dcidElseOK = render(fset, as.Rhs[0]) == render(fset, tDcid[0])
-					}
-				}
+					return true
+				})
 			}
 		}
-		// the remaining top-level statements must coincide, in order
-		skipU := func(st ast.Stmt) bool {
-			if st == ctorIf || st == dcidIf {
-				return true
-			}
-			if ds, ok := st.(*ast.DeclStmt); ok {
-				r := render(fset, ds)
-				return r == "var conn *wrappedConn" || r == "var destConnID protocol.ConnectionID"
-			}
-			return false
-		}
-		skipT := func(st ast.Stmt) bool {
-			if as, ok := st.(*ast.AssignStmt); ok && len(as.Rhs) == 1 {
-				if call, ok := as.Rhs[0].(*ast.CallExpr); ok {
-					n := callName(call)
-					return n == "newClientConnection" || n == "generateConnectionIDForInitial"
-				}
-			}
-			return false
-		}
-		var restU, restT []string
-		for _, st := range uDo.Body.List {
-			if !skipU(st) {
-				restU = append(restU, normRecv(render(fset, st)))
-			}
-		}
-		for _, st := range tDo.Body.List {
-			if !skipT(st) {
-				restT = append(restT, normRecv(render(fset, st)))
-			}
-		}
+		restU, restT := canonList(uNil), canonList(plain)
 		if os.Getenv("GOFACTS_DEBUG") != "" {
 			for i := 0; i < len(restU) || i < len(restT); i++ {
 				a, b := "-", "-"
@@ -333,16 +357,18 @@ func init() {
 				}
 			}
 		}
-		w.P("/-- u_transport.go `UTransport.doDial`: under `t.QUICSpec == nil` the connection is built by a single call of `newClientConnection` -/")
+		w.P("/-- u_transport.go `UTransport.doDial` partially evaluated for `t.QUICSpec == nil` (same-package helpers followed, decided")
+		w.P("    branches taken): the connection is built by a single call of `newClientConnection` -/")
 		w.P("def nilBranchCallsPlainCtor : Bool := %s", leanBool(nilCtor))
 		w.P("/-- … with the argument list of `Transport.doDial`'s call (modulo `t.Transport` for `t`) -/")
 		w.P("def nilBranchArgsMatch : Bool := %s", leanBool(nilArgs))
-		w.P("/-- … and otherwise by `newUClientConnection(<the same arguments>, t.QUICSpec)` -/")
+		w.P("/-- … and, evaluated for `t.QUICSpec != nil`, by `newUClientConnection(<the same arguments>, t.QUICSpec)` only -/")
 		w.P("def specBranchCallsUCtor : Bool := %s", leanBool(specCtor))
-		w.P("/-- `UTransport.doDial`: the destination connection ID is drawn by `generateConnectionIDForInitial()` as in `Transport.doDial`")
-		w.P("    unless `t.QUICSpec != nil && …` -/")
-		w.P("def dcidDefaultWhenNoSpec : Bool := %s", leanBool(dcidIf != nil && dcidElseOK))
-		w.P("/-- every other top-level statement of `UTransport.doDial` equals `Transport.doDial`'s, in order -/")
+		w.P("/-- `UTransport.doDial` without a spec: the destination connection ID is drawn by `generateConnectionIDForInitial()` exactly as")
+		w.P("    in `Transport.doDial` (inline or through a same-package helper), and by nothing else -/")
+		w.P("def dcidDefaultWhenNoSpec : Bool := %s", leanBool(dcidOK))
+		w.P("/-- the whole statement list of `UTransport.doDial`, partially evaluated for `t.QUICSpec == nil`, equals `Transport.doDial`'s, in")
+		w.P("    order (`var x T` dropped, `:=` read as `=`, `t.Transport` for `t`) -/")
 		w.P("def doDialRestEqual : Bool := %s", leanBool(eqStrs(restU, restT)))
 
 		// dial: Transport.dial's statements occur in UTransport.dial in order; every extra statement is INERT without a
